@@ -26,6 +26,11 @@ type CursorWorldSpec struct {
 	// Big: one external-writer file whose blocks carry ~2.7 MB filter sections,
 	// so the block filter region spans several 4 MiB chunk reads.
 	Big bool `json:"big,omitempty"`
+	// BadTail: in addition to the engine-written files, one external-writer file
+	// ("file":"fx") with a single 10-row block whose row data ends in two garbage
+	// bytes: a query that evaluates it returns its rows and then records a scan
+	// failure (a failure in the middle of a block, not at a store call)
+	BadTail bool `json:"badtail,omitempty"`
 }
 
 type cursorWorld struct {
@@ -35,6 +40,9 @@ type cursorWorld struct {
 	total int
 	where map[int]blockID // row id -> block
 	files []*FileInfo
+	// badBlock identifies the malformed block of a BadTail world
+	badBlock blockID
+	badRows  int
 }
 
 var (
@@ -104,6 +112,41 @@ func getCursorWorld(spec CursorWorldSpec) (*cursorWorld, error) {
 	if err != nil {
 		return nil, err
 	}
+	if spec.BadTail {
+		// written after ReadWorld: the public read helpers (rightly) refuse this block
+		known := map[string]bool{}
+		for _, f := range files {
+			known[f.Ptr] = true
+		}
+		w0 := &World{Data: ds, Meta: ms, MemData: ds, Rows: map[int]*StoredRow{}}
+		var rows []Val
+		const nbad = 10
+		for i := 0; i < nbad; i++ {
+			rows = append(rows, VObj(kv("p", VStr("px")), kv("tag", VStr("common")), kv("file", VStr("fx")), kv("only", VStr("fxb0"))))
+		}
+		next := id + 1
+		if _, err := writeExternalFile(w0, EngCfg{Tokenizer: "default", FPR: 1e-6}, 0, Step{Op: "ext", Rows: rows, Ext: &ExtOpt{Blocks: 1, BadTail: 2, Part: "px"}}, &next); err != nil {
+			return nil, err
+		}
+		for mf, err := range ms.GetMaybeFilesForQuery(ctx, nil) {
+			if err != nil || known[string(mf.PointerBytes)] {
+				continue
+			}
+			fi := &FileInfo{Ptr: string(mf.PointerBytes), Meta: mf.Metadata}
+			for bi, bm := range mf.Metadata.DataBlocks {
+				b := &BlockInfo{File: fi.Ptr, Meta: bm, Index: bi}
+				for rid := id + 1; rid < next; rid++ {
+					b.IDs = append(b.IDs, rid)
+				}
+				fi.Blocks = append(fi.Blocks, b)
+				w.badBlock = blockID{fi.Ptr, bm.RowDataOffset}
+				w.badRows = bm.Rows
+			}
+			files = append(files, fi)
+		}
+		id = next - 1
+		w.total = id
+	}
 	w.files = files
 	for _, f := range files {
 		for _, b := range f.Blocks {
@@ -138,6 +181,9 @@ type CursorCase struct {
 	Steps     []CursorStep    `json:"steps"`
 	Lifecycle string          `json:"lifecycle"` // never, started, stopped
 	Procs     int             `json:"procs,omitempty"`
+	// Repeat: run the same script this many times (first violation wins): for
+	// scripts whose interesting interleaving is a matter of a few percent
+	Repeat int `json:"repeat,omitempty"`
 }
 
 func cursorQuery(kind string) *bs.Query {
@@ -186,7 +232,40 @@ func genCursorCase(withFaults bool) *rapid.Generator[CursorCase] {
 		}
 		// consumer script
 		total := c.World.Files * c.World.Blocks * c.World.Rows
-		switch unif(t, "script", 12) {
+		switch unif(t, "script", 14) {
+		case 13:
+			// a world with a malformed block: its rows scan, then the scan fails
+			// (a failure in the middle of the pipeline, not at a store call)
+			c.World = CursorWorldSpec{Files: pick(t, "bfiles", []int{2, 4}), Blocks: pick(t, "bblocks", []int{2, 3}), Rows: pick(t, "brows", []int{70, 200}), BadTail: true}
+			c.Query = pick(t, "bquery", []string{"all", "token", "all", "file0"})
+			c.Faults, c.LatencyUs = nil, 0
+			c.QConc = pick(t, "bqconc", []int{1000, 8, 2})
+			switch unif(t, "bscript", 4) {
+			case 0:
+				// plain drain
+			case 1, 2:
+				// the consumer stops reading; the small malformed block is long done
+				// (its final partial batch parked on the full row buffer) when Close comes
+				c.Steps = append(c.Steps, CursorStep{Op: "next", N: rapid.IntRange(0, 3).Draw(t, "bk")}, CursorStep{Op: "stall", Ms: rapid.IntRange(300, 400).Draw(t, "bstall")}, CursorStep{Op: "close"})
+			default:
+				c.Steps = append(c.Steps, CursorStep{Op: "next", N: rapid.IntRange(0, 40).Draw(t, "bk2")}, CursorStep{Op: "stall", Ms: rapid.IntRange(20, 120).Draw(t, "bstall2")}, CursorStep{Op: "cancel"})
+			}
+			return c
+		case 12:
+			// a failure is recorded early, the pipeline finishes, the consumer is
+			// still walking through buffered rows (slowly) when another goroutine
+			// calls Close: Next's own termination and Close race for the terminal state
+			c.World = CursorWorldSpec{Files: pick(t, "rfiles", []int{2, 4}), Blocks: pick(t, "rblocks", []int{2, 3}), Rows: pick(t, "rrows", []int{70, 200})}
+			c.Query = "all"
+			c.LatencyUs = 0
+			c.QConc = pick(t, "rqconc", []int{1000, 8})
+			c.Procs = pick(t, "rprocs", []int{0, 4, 2})
+			if withFaults {
+				c.Faults = []CursorFault{{Kind: pick(t, "rfk", []string{"OpenFile", "OpenFile", "Read"}), N: rapid.IntRange(0, 2).Draw(t, "rfn")}}
+			}
+			c.Steps = append(c.Steps, CursorStep{Op: "close", Async: true, Ms: rapid.IntRange(150, 220).Draw(t, "rms")}, CursorStep{Op: "nextslow", N: 150, Ms: 2})
+			c.Repeat = 12
+			return c
 		case 10, 11:
 			// several goroutines call Close at the same moment, mid-stream: each of
 			// them must find the query wound down when ITS call returns
@@ -280,6 +359,11 @@ type CursorObs struct {
 	// CloseSnaps: what the handle accounting looked like at the moment each
 	// individual Close call returned (before the end of the stream)
 	CloseSnaps []CloseSnap
+	// WorldBad: the world holds a malformed block that this query's expression
+	// does not rule out; BadBlock/BadRows identify it
+	WorldBad bool
+	BadBlock blockID
+	BadRows  int
 }
 
 type CloseSnap struct {
@@ -299,9 +383,10 @@ func runCursorCase(c CursorCase) (*CursorObs, *Trace, *bs.BloomSearchEngine, *Vi
 	tr := NewTrace(w.ds, w.ms)
 	var terminated int32
 	gate := make(chan struct{})
+	worldBad := c.World.BadTail && (c.Query == "all" || c.Query == "token")
 	var gateOnce sync.Once
 	openGate := func() { gateOnce.Do(func() { close(gate) }) }
-	o := &CursorObs{}
+	o := &CursorObs{WorldBad: worldBad, BadBlock: w.badBlock, BadRows: w.badRows}
 	var fmu sync.Mutex
 	tr.Before = func(ci *CallInfo) error {
 		switch ci.Kind {
@@ -431,6 +516,13 @@ func runCursorCase(c CursorCase) (*CursorObs, *Trace, *bs.BloomSearchEngine, *Vi
 			take(st.N)
 		case "stall":
 			time.Sleep(time.Duration(st.Ms) * time.Millisecond)
+		case "nextslow":
+			for i := 0; i < st.N && !gotFalse && o.Timeout == ""; i++ {
+				if !take(1) {
+					break
+				}
+				time.Sleep(time.Duration(st.Ms) * time.Millisecond)
+			}
 		case "close":
 			if st.Async {
 				asyncWG.Add(1)
